@@ -78,7 +78,8 @@ pub const STATEMENTS: &[&str] = &[
     // a child that has been waited for no longer exists
     "(exit 3) & wait $!; kill -s TERM $! 2>&-; echo $?", "(exit 3) & wait $!; kill -0 $! 2>&-; echo $?",
     // no descriptor left for the file being opened: the file must be neither created nor truncated
-    "ulimit -n 4; echo x 3<f0 >newf; echo $?", "echo keep > f1; ulimit -n 4; : 3<f0 >f1; echo $?; cat f1",
+    // (descriptor 9 is closed, so nothing is saved first; descriptors 0-3 are taken)
+    "exec 3>f3; ulimit -n 4; echo x 9>newf; echo $?", "echo keep > f1; exec 3>f3; ulimit -n 4; : 9>f1; echo $?; exec 3>&-; cat f1",
     // default actions: a subshell (command traps reset) sends the signal to the whole process
     // group; the main shell survives through its trap, the subshell dies or not (IO is left out:
     // on Linux it is the same signal as POLL and libc's sig2str names it POLL)
